@@ -16,7 +16,7 @@ from .. import domains, rb, tlc
 from ..common import Report, parse_args
 
 PROP = "C18"
-TRACE_CFG = "INIT Init\nNEXT Next\nINVARIANT Holds\nCHECK_DEADLOCK FALSE\n"
+TRACE_CFG = "INIT Init\nNEXT Next\nINVARIANT Holds\nALIAS Small\nCHECK_DEADLOCK FALSE\n"
 
 NAMES_CFG = """CONSTANTS
   Kinds = {%s}
